@@ -196,7 +196,9 @@ def run_shard(spec):
             d = DatumGen(rng, size_budget=40, big=0.0, mappings=0.0).gen(node)
             if not RC.float_out_of_range(node, d):
                 recs.append(d)
-        sh.case(h64(schema_shape(case["schema"]), datum_shape(recs[0]), len(recs)), nontrivial(case["schema"]))
+        if rng.random() < 0.02:
+            recs = []  # an empty text must read back as no records
+        sh.case(h64(schema_shape(case["schema"]), datum_shape(recs[0]) if recs else "empty", len(recs)), nontrivial(case["schema"]))
         sh.feat(case["features"])
         seed = rng.getrandbits(48)
         v = sh.run_case(one_case, sh, fa, random.Random(seed), case, recs)
